@@ -16,7 +16,7 @@ from ..kernel import Engine, call, exc_is
 CLASSES = ('Bits', 'BitArray', 'ConstBitStream', 'BitStream')
 WRITE_SRC = ('mem', 'file', 'filelen', 'fileoff', 'slice', 'bytesio')
 READ_ROUTES = ('bytes', 'bytearray', 'memoryview', 'bytesio', 'filename', 'handle', 'bitarray', 'mv_cast_H', 'mv_cast_I', 'array_H', 'bytesio_pos', 'bytesio_reused', 'bufreader',
-               'handle_update', 'handle_raw', 'bufrandom')
+               'handle_update', 'handle_raw', 'bufrandom', 'handle_bytesname')
 FAULT_KINDS = ('error', 'torn', 'closed')
 
 
@@ -519,6 +519,12 @@ class EIO(Engine):
                     self.path = self.fs.new_file(data)
                 h = open(self.path, 'rb')
                 st, x = call(C, h, **kw)
+            elif route == 'handle_bytesname':
+                # a file opened by a bytes path (os.listdir(b'.') gives such names)
+                if not hasattr(self, 'path'):
+                    self.path = self.fs.new_file(data)
+                h = open(os.fsencode(self.path), 'rb')
+                st, x = call(C, h, **kw)
             elif route in ('handle_update', 'handle_raw'):
                 # "a file object, opened in binary mode": for update (io.BufferedRandom) or unbuffered (io.FileIO)
                 if not hasattr(self, 'path'):
@@ -535,7 +541,7 @@ class EIO(Engine):
         incs = []
         tag = f'read|route={route}'
         if st != 'ok':
-            trig = 'empty-file' if (nb == 0 and route in ('filename', 'handle', 'handle_update', 'handle_raw')) else 'valid-window'
+            trig = 'empty-file' if (nb == 0 and route in ('filename', 'handle', 'handle_update', 'handle_raw', 'handle_bytesname')) else 'valid-window'
             incs.append(self.inc(f'{tag}|{trig}|raised', cls=cls, size=len(data), offset=o, length=ln, exc=kernel.canon(x)))
             return {'st': 'exc'}, incs
         if src_buf is not None and len(src_buf):
@@ -550,7 +556,7 @@ class EIO(Engine):
         got = call(lambda: x.bin)
         if got != ('ok', want) or len(x) != len(want):
             mut = 'mutable' if cls in ('BitArray', 'BitStream') else 'const'
-            trig = 'lazy-length' if (route in ('filename', 'handle', 'handle_update', 'handle_raw') and not o and ln is not None) else 'window'
+            trig = 'lazy-length' if (route in ('filename', 'handle', 'handle_update', 'handle_raw', 'handle_bytesname') and not o and ln is not None) else 'window'
             incs.append(self.inc(f'{tag}|{trig}|{mut}|content-mismatch', cls=cls, size=len(data), offset=o, length=ln,
                                  got=kernel.canon(got[1])[:200] if isinstance(got[1], str) else kernel.canon(got[1]), want=want[:200], got_len=len(x)))
         return {'st': 'ok', 'n': len(want)}, incs
